@@ -73,7 +73,9 @@ impl<'a> Remote<'a> {
                 crate::yield_now()
             }
         }
-        if !notified && let Some(ref waker) = shared.waker {
+        // Always wake after the push: a wake issued while the queue was full only made the
+        // runtime drain it, and the runtime may go back to sleep without having seen this id.
+        if let Some(ref waker) = shared.waker {
             waker.wake_by_ref();
         }
 
